@@ -58,6 +58,13 @@ def gen_system(rng, cfg, sid, big=False):
             rho[0, kk : 2 * kk] = 1e-8
             rho[1, 2 * kk : 3 * kk] = 3e-7
             rho[0, 2 * kk : 3 * kk] = 3e-7
+    tail = []
+    if cfg.get("norm0") and n >= 40:
+        # diffuse tail: densities on either side of the cutoff (so that the *normalised* density
+        # feature and the raw density fall on different sides of it) with the large quadrature
+        # weights such points carry
+        tail = list(range(3 * kk, 3 * kk + 8))
+        rho[:, tail] = np.array([1.5e-7, 3e-7, 6e-7, 9e-7, 1.2e-6, 2.5e-6, 5e-6, 7e-6])[None, :] / nspin
     s2 = np.exp(nprng.uniform(-5, 2, size=(nspin, n)))
     desc = np.zeros((nspin, 3, n))
     desc[:, 0] = rho
@@ -75,6 +82,8 @@ def gen_system(rng, cfg, sid, big=False):
     nnl = cfg["n_nldf"]
     nl = np.exp(nprng.uniform(-3, 1.5, size=(nspin, nnl, n))) * rho[:, None, :] ** 0.0
     wt = np.abs(nprng.normal(size=n)) * 0.05 + 1e-3
+    if tail:
+        wt[tail] *= 2e4
     val = -0.74 * (rho.mean(0)) ** (4.0 / 3) * (1 + 0.2 * nprng.normal(size=n))
     nsd = cfg.get("n_sdmx", 0)
     sd = np.exp(np.random.default_rng(int(nprng.integers(0, 2**31)) if nsd else 0).uniform(-3, 1.0, size=(nspin, nsd, n))) if nsd else np.zeros((nspin, 0, n))
@@ -158,6 +167,13 @@ def make_settings(cfg):
     st = S.FeatureSettings(sl_settings=sl, nldf_settings=nldf, sdmx_settings=sdmx)
     if cfg["normalize"]:
         st.assign_reasonable_normalizer()
+        if cfg.get("norm0"):
+            # a normaliser on the density feature itself (supported; the recommended list has None there)
+            from ciderpress.dft import feat_normalizer as FN
+
+            lst0 = list(st.normalizers._normalizers) if hasattr(st.normalizers, "_normalizers") else list(st.get_reasonable_normalizer())
+            lst0[0] = FN.ConstantNormalizer(float(cfg["norm0"]))
+            st.normalizers = FN.FeatNormalizerList(lst0, slmode=sl.mode)
         kinds = cfg.get("norm_kinds")
         if kinds:
             # value-dependent normalisers on the nonlocal features (the recommended set for
@@ -166,6 +182,8 @@ def make_settings(cfg):
             from ciderpress.dft import feat_normalizer as FN
 
             lst = list(st.get_reasonable_normalizer())
+            if cfg.get("norm0"):
+                lst[0] = FN.ConstantNormalizer(float(cfg["norm0"]))
             for j, kd in enumerate(kinds[: cfg["n_nldf"]]):
                 k, c1, c2, p1, p2 = kd
                 if k == "density":
@@ -288,6 +306,8 @@ def gen_cfg(rng):
         "nsamps": nsamps,
         "default_noise": rng.choice([0.03, 0.01, 0.1]),
         "dseed": rng.below(10**9),
+        "id_style": rng.choice(["plain", "plain", "dotted"]),
+        "norm0": rng.choice([None, None, None, 2.0, 0.25, 8.0]),
         "norm_kinds": [[rng.choice(["const", "density", "inhom", "general"]), rng.choice([0.5, 1.0, 2.0]), rng.choice([0.25, 1.0]), rng.choice([-0.5, 0.5, 1.0]), rng.choice([-1, 1, 2])] for _ in range(2)] if rng.chance(0.6) else None,
     }
 
@@ -321,10 +341,19 @@ def gen_reaction(rng, cfg, ids):
     return [mode, rxn]
 
 
+def sys_ids(cfg):
+    """names of the training systems.  A name is an arbitrary string (the package joins it with
+    the data directory and appends ".hdf5"): "dotted" gives look-alike pairs such as sys0 /
+    sys0.t1 (a spin state, a geometry label)."""
+    if cfg.get("id_style") == "dotted":
+        return ["sys%d" % (i // 2) if i % 2 == 0 else "sys%d.t%d" % (i // 2, i) for i in range(cfg["nsys"])]
+    return ["sys%d" % i for i in range(cfg["nsys"])]
+
+
 def gen_history(seed):
     rng = Rng(derive("gphist", seed))
     cfg = gen_cfg(rng)
-    ids = ["sys%d" % i for i in range(cfg["nsys"])]
+    ids = sys_ids(cfg)
     ops = []
     big_enough = [i for i, n_ in zip(ids, cfg["nsamps"]) if n_ >= 40] or ids  # control points come from real samples
     ctrl_ids = rng.sample(big_enough, rng.randint(1, min(3, len(big_enough))))
@@ -584,7 +613,7 @@ def exec_history(hist, workdir, collect=None, light=False):
     for k, v in ddir.items():
         if v:
             os.makedirs(v, exist_ok=True)
-    ids = ["sys%d" % i for i in range(cfg["nsys"])]
+    ids = sys_ids(cfg)
     drng = Rng(cfg["dseed"])
     data = {}
     for i, sid in enumerate(ids):
@@ -1108,7 +1137,7 @@ def faultenum_history(fseed, target, k):
     cfg["nsys"] = min(cfg["nsys"], 4)
     cfg["nsamps"] = [min(n_, 150) if n_ >= 40 else 77 for n_ in cfg["nsamps"][: cfg["nsys"]]]
     cfg["nspins"] = cfg["nspins"][: cfg["nsys"]]
-    ids = ["sys%d" % i for i in range(cfg["nsys"])]
+    ids = sys_ids(cfg)
     a = [gen_reaction(rng, cfg, ids) for _ in range(3)]
     b = [gen_reaction(rng, cfg, ids) for _ in range(3)]
     f = {"fault": k, "fault_shallow": 3}
